@@ -61,6 +61,16 @@ Theorem C19_siblings :
 Proof. exact SemProofs.C19_next_all. Qed.
 Print Assumptions C19_siblings.
 
+(* prev_all walks the nodes' own sibling links (fix b516f38): it is the iterated prev on EVERY tree,
+   zero-width recovery nodes or not *)
+Theorem C19_prev_all_unrestricted :
+  forall root p, get root p <> None -> prev_all root p = earlier_siblings root p.
+Proof.
+  intros root p Hg. unfold prev_all, earlier_siblings.
+  destruct (get root p); [|congruence]. destruct (parent_loc p); reflexivity.
+Qed.
+Print Assumptions C19_prev_all_unrestricted.
+
 (* positions: line = newlines before the offset; column = characters since the line start *)
 Theorem C19_positions :
   forall src off,
